@@ -73,15 +73,23 @@ func rulesC05(c *Ctx) {
 	entry := map[string]map[int]bool{}
 	n := 0
 	for _, r := range rows {
+		if r.tok >= 0 && tt.Name[r.tok] == "COMMENT" && r.twoRunes {
+			// variable length: the body is consumed by skipUntil*, which must be
+			// entered after both runes of the opener
+			key := fmt.Sprintf("Scanner.Scan: %q %q -> COMMENT opener", r.c0, r.c1)
+			if r.consumed != 2 {
+				c.Bad("C05.consume", key, r.pos.Pos(), fmt.Sprintf("the comment body is scanned after a net consumption of %d runes, not the 2 of the opener: a rune of the opener is read again as part of the body", r.consumed))
+			} else {
+				c.OK("C05.consume", key, r.pos.Pos(), "2")
+			}
+			continue
+		}
 		switch r.kind {
 		case "token":
 			if r.tok < 0 {
 				continue
 			}
 			name := tt.Name[r.tok]
-			if name == "COMMENT" {
-				continue // variable length, consumed by skipUntil*
-			}
 			n++
 			want := 1
 			if sp, ok := tt.Spelling[r.tok]; ok && name != "ILLEGAL" && name != "EOF" && name != "WS" {
@@ -115,6 +123,8 @@ func rulesC05(c *Ctx) {
 
 	// ---- position origin ----
 	posoriginC05(c, entry)
+	// ---- column arithmetic ----
+	columnC05(c)
 	// ---- CR folding ----
 	crfoldRule(c, "C05.crfold")
 	// ---- rune push-back bounded ----
@@ -291,6 +301,14 @@ func rulesC06(c *Ctx) {
 			pr := pairs[g]
 			if pr == nil {
 				continue
+			}
+			// the table that applies inside this kind of quote
+			unesc, specials := unesc, specials
+			if quote != '\'' {
+				sub := NewCtx(c.P, c.Prop, c.Tier)
+				if u2, s2, ok2 := scanStringTablesFor(sub, quote); ok2 {
+					unesc, specials = u2, s2
+				}
 			}
 			for k, v := range pr {
 				key := fmt.Sprintf("%s: %q -> %q", g, k, v)
@@ -550,6 +568,11 @@ func replacerPairs(p *Program, g string) (map[string]string, bool) {
 // backslash -> rune written) and the runes it treats specially besides the
 // closing quote.
 func scanStringTables(c *Ctx) (map[rune]rune, []rune, bool) {
+	return scanStringTablesFor(c, '\'')
+}
+
+// scanStringTablesFor: the same extraction with the opening quote bound to q.
+func scanStringTablesFor(c *Ctx, q rune) (map[rune]rune, []rune, bool) {
 	p := c.P
 	f := p.SSAFunc(p.Func("ScanString"))
 	if f == nil {
@@ -579,7 +602,7 @@ func scanStringTables(c *Ctx) (map[rune]rune, []rune, bool) {
 		s.hook = func(call *ssa.Call, args []cval) ([]cval, bool) {
 			switch call {
 			case reads[0]:
-				return []cval{cConst(constant.MakeInt64('\'')), cTop, cNil()}, true
+				return []cval{cConst(constant.MakeInt64(int64(q))), cTop, cNil()}, true
 			case reads[1]:
 				return []cval{cConst(constant.MakeInt64(int64(ch0))), cTop, cNil()}, true
 			case reads[2]:
@@ -623,7 +646,11 @@ func scanStringTables(c *Ctx) (map[rune]rune, []rune, bool) {
 			specials = append(specials, ch0)
 		}
 	}
-	c.Check(len(unesc) >= 4, "C06.escapes", "ScanString: unescape table", f.Pos(), fmt.Sprintf("extracted %d escapes", len(unesc)))
+	if len(unesc) == 0 {
+		c.Unk("C06.escapes", "ScanString: unescape table", f.Pos(), "no escape extracted")
+	} else {
+		c.OK("C06.escapes", "ScanString: unescape table", f.Pos(), fmt.Sprintf("extracted %d escapes", len(unesc)))
+	}
 	return unesc, specials, true
 }
 
@@ -637,4 +664,85 @@ func isWord(s string) bool {
 		}
 	}
 	return true
+}
+
+// columnC05: the position advances by one column per rune, and a line break
+// resets the column and advances the line by one.
+func columnC05(c *Ctx) {
+	p := c.P
+	c.Rule("C05.column", "reader.read is the only writer of the running position; it stores into the column either 0 or the old column plus the constant 1 (one per character, whatever its encoded length) and into the line only the old line plus 1")
+	read := p.SSAFunc(p.Method("reader", "read"))
+	if read == nil {
+		c.Unk("C05.column", "(*reader).read", 0, "anchor not found")
+		return
+	}
+	n := 0
+	for _, fn := range p.SrcFuncs() {
+		for _, b := range fn.Blocks {
+			for _, in := range b.Instrs {
+				st, ok := in.(*ssa.Store)
+				if !ok {
+					continue
+				}
+				fa, ok := st.Addr.(*ssa.FieldAddr)
+				if !ok {
+					continue
+				}
+				outer, ok := fa.X.(*ssa.FieldAddr)
+				if !ok || fieldNameOf(outer) != "pos" || !strings.HasSuffix(p.TypeStr(outer.X.Type()), "reader") {
+					continue
+				}
+				fld := fieldNameOf(fa)
+				key := fmt.Sprintf("%s: store into pos.%s #%d", fn.Name(), fld, countKey(&n))
+				if fn != read {
+					c.Bad("C05.column", key, st.Pos(), "the running position is written outside reader.read")
+					continue
+				}
+				val := st.Val
+				if k, ok := val.(*ssa.Const); ok && k.Value != nil {
+					if fld == "Char" && constant.Sign(k.Value) == 0 {
+						c.OK("C05.column", key, st.Pos(), "column reset to 0")
+					} else {
+						c.Bad("C05.column", key, st.Pos(), "stores the constant "+k.Value.String())
+					}
+					continue
+				}
+				bo, ok := val.(*ssa.BinOp)
+				if !ok || bo.Op != token.ADD {
+					c.Unk("C05.column", key, st.Pos(), "stored value is not a constant or an addition")
+					continue
+				}
+				ld, okL := bo.X.(*ssa.UnOp)
+				k, okK := bo.Y.(*ssa.Const)
+				sameField := false
+				if okL {
+					if lfa, ok := ld.X.(*ssa.FieldAddr); ok && fieldNameOf(lfa) == fld {
+						sameField = true
+					}
+				}
+				switch {
+				case sameField && okK && k.Value != nil && k.Value.String() == "1":
+					c.OK("C05.column", key, st.Pos(), "old value + 1")
+				case sameField:
+					c.Bad("C05.column", key, st.Pos(), "advances by something other than one per character: columns of later tokens drift on multi-byte input")
+				default:
+					c.Unk("C05.column", key, st.Pos(), "addition not of the form old + constant")
+				}
+			}
+		}
+	}
+	c.Floor("C05.column", n, 3)
+}
+
+func countKey(n *int) int { *n++; return *n }
+
+func fieldNameOf(fa *ssa.FieldAddr) string {
+	t := fa.X.Type().Underlying()
+	if pt, ok := t.(*types.Pointer); ok {
+		t = pt.Elem().Underlying()
+	}
+	if st, ok := t.(*types.Struct); ok && fa.Field < st.NumFields() {
+		return st.Field(fa.Field).Name()
+	}
+	return ""
 }
